@@ -47,6 +47,20 @@ func (c *FnCtx) evalCall(st *State, call *ast.CallExpr) []*Term {
 			switch sel.Kind() {
 			case types.MethodVal:
 				fn := sel.Obj().(*types.Func)
+				// shared state (C11): a method called on an object held in a package-level variable must be known to be
+				// read-only - a library method with a contract entry that is not `impure`, or sync.Once.Do; a repository
+				// method is checked through its own `assigns` clause
+				if g := c.rootGlobal(f.X); g != nil && !c.allowGlobalWrite && fn.Pkg() != nil && !isRepoPkg(fn.Pkg()) {
+					key := c.eng.canonicalMethodKey(funcKey(fn), c.typeOf(f.X))
+					ct := c.eng.contracts[key]
+					if ct == nil {
+						ct = c.eng.contracts[funcKey(fn)]
+					}
+					isOnce := funcKey(fn) == "sync.Once.Do"
+					if !isOnce && (ct == nil || ct.Impure) {
+						c.oblige(st, "frame:global", call, "", "method "+fn.Name()+" (not known to be read-only) called on package-level variable "+g.Name(), tFalse)
+					}
+				}
 				recv := c.eval(st, f.X)
 				recvT := c.typeOf(f.X)
 				// walk embedded path to the receiver (promoted methods of external types keep the outer receiver)
